@@ -452,21 +452,23 @@ class Cid(object):
                     % (_compat.text_repr(field_name), sys.maxsize, field_format.length),
                     self._location,
                 )
-        elif field_length.lower_limit is not None:
-            if field_length.lower_limit < 0:
-                raise errors.InterfaceError(
-                    "lower limit for length of field %s must be at least 0 but is: %s"
-                    % (_compat.text_repr(field_name), field_format.length.lower_limit),
-                    self._location,
-                )
-        elif field_length.upper_limit is not None:
-            # Note: 0 as upper limit is valid for a field that must always be empty.
-            if field_length.upper_limit < 0:
-                raise errors.InterfaceError(
-                    "upper limit for length of field %s must be at least 0 but is: %s"
-                    % (_compat.text_repr(field_name), field_format.length.upper_limit),
-                    self._location,
-                )
+        elif field_length.items is not None:
+            # NOTE: Check each part because the lower_limit and upper_limit of the whole range are None as soon
+            #  as any part has no limit, for example "-3, ...5".
+            for lower_limit, upper_limit in field_length.items:
+                if (lower_limit is not None) and (lower_limit < 0):
+                    raise errors.InterfaceError(
+                        "lower limit for length of field %s must be at least 0 but is: %s"
+                        % (_compat.text_repr(field_name), lower_limit),
+                        self._location,
+                    )
+                # Note: 0 as upper limit is valid for a field that must always be empty.
+                if (upper_limit is not None) and (upper_limit < 0):
+                    raise errors.InterfaceError(
+                        "upper limit for length of field %s must be at least 0 but is: %s"
+                        % (_compat.text_repr(field_name), upper_limit),
+                        self._location,
+                    )
 
         # Set and validate example in case there is one.
         if field_example != "":
